@@ -71,6 +71,14 @@ STRESS = [
     ("start = {a}* 'v' $ ;\na = 'x' ( 'q' `1/0` | 'r' ) ;", ['x q v', 'x r v', 'x q x r v', 'v']),
     ("start = a a 'v' ;\na = 'x' { 'q' `{[1]:2}` } ;", ['x x v', 'x q x v', 'x x q v']),
     ("start = [a] 'x' 'q' $ ;\na = 'x' [ 'q' `1/0` ] 'z' ;", ['x q', 'x q z', 'x z']),
+    # constants that use a captured value which may be missing (None) or unsuitable: whatever the evaluation raises - AttributeError,
+    # IndexError, KeyError, ValueError, TypeError, NameError, OverflowError - the parse reports a failure
+    ("start = n:'a' [p:'b'] l:`{n}-{p.zfill(4)}` $ ;", ['a b', 'a']), ("start = n:'a' [p:'b'] l:`p.upper()` $ ;", ['a b', 'a']),
+    ("start = n:'a' [p:'b'] l:`n[5]` $ ;", ['a b', 'a']), ("start = n:'a' [p:'b'] l:`{'k': 1}[n]` $ ;", ['a b', 'a']),
+    ("start = n:'a' [p:'b'] l:`int(n)` $ ;", ['a b', 'a']), ("start = n:'a' [p:'b'] l:`n + 1` $ ;", ['a b', 'a']),
+    ("start = n:'a' [p:'b'] l:`len(p)` $ ;", ['a b', 'a']), ("start = n:'a' l:`nosuchname + n` $ ;", ['a']),
+    ("start = n:'a' l:`2.0 ** 5000` $ ;", ['a']), ("start = n:'a' l:`n.nosuchattr` $ ;", ['a']), ("start = n:'a' ^`{n.nosuchattr}` $ ;", ['a']),
+    ("start = {x+:'a'} l:`x[3]` $ ;", ['a a', 'a a a a']), ("start = n:'a' l:`'%d' % n` $ ;", ['a']), ("start = n:'a' l:`{n:d}` $ ;", ['a']),
 ]
 
 
@@ -79,9 +87,66 @@ def kf_stress(ck, ebnf, o, what):
     return False
 
 
+def run_reused_errors(case):
+    """One generated parser object (and one hand-held tatsu.parsing.Parser of the model's rules) fed a sequence of texts: every reported failure
+    must be the one a fresh parser object reports for that text - class, offset, line, column, source line, rendered message."""
+    import tatsu
+    from ..impl import _Quiet, clear_caches, load_generated
+    from tatsu.exceptions import FailedParse
+    clear_caches()
+    with _Quiet():
+        cls, _src = load_generated(case['ebnf'])
+
+    def call(p, text):
+        try:
+            with _Quiet():
+                p.parse(text, start='start')
+            return {'k': 'ok'}
+        except FailedParse as e:
+            try:
+                info = e.info if hasattr(e, 'info') else e.cursor.lineinfo(e.pos)
+                return {'k': 'fail', 'cls': type(e).__name__, 'pos': e.pos, 'line': info.line, 'col': info.col, 'text': info.text, 'msg': str(e)}
+            except Exception as e2:  # noqa: BLE001
+                return {'k': 'fail', 'cls': type(e).__name__, 'render': f'{type(e2).__name__}: {e2}'}
+        except Exception as e:  # noqa: BLE001
+            return {'k': 'exc', 'cls': type(e).__name__, 'msg': str(e)[:120]}
+    bad = []
+    for order in case['orders']:
+        shared = cls()
+        for i, text in enumerate(order):
+            a, b = call(shared, text), call(cls(), text)
+            if a != b:
+                bad.append({'texts_so_far': order[:i + 1], 'reused_object': a, 'fresh_object': b})
+                break
+    return bad
+
+
+def reused_parser_errors(ck, tier):
+    from ..common import pmap
+    import itertools
+    g = "@@grammar :: RE\nstart = {stmt}+ $ ;\nstmt = name '=' num ';' | 'print' name ';' ;\nname = /[a-z]+/ ;\nnum = /\\d+/ ;\n"
+    texts = ['a = 1 ;\nb = 2 ;\nc = x ;\n', 'a = ;', '= 1 ;', 'a = 1 ;\nprint 7 ;', 'a = 1 ;', 'print a ;\nprint b', '', 'a = 1 ; b = 22 ; c = 333 ; d',
+             '\n\n  a 1', 'print a ;\n\n\nzz = 9 ; q']
+    orders = [list(p) for p in itertools.permutations(texts, 2)] + [texts, texts[::-1], sorted(texts, key=len, reverse=True)]
+    cases = [{'ebnf': g, 'orders': orders[i::8]} for i in range(8)]
+    res = pmap(run_reused_errors, cases, procs=8, chunk=1, recycle=1)
+    n = 0
+    for c, bad in zip(cases, res):
+        n += sum(len(o) for o in c['orders'])
+        ck.count(evaluations=sum(len(o) for o in c['orders']), traces=sum(len(o) for o in c['orders']))
+        for b in bad[:2]:
+            ck.violation({'kind': 'history', 'inputs': {'grammar': g, 'texts_parsed_by_one_generated_parser_object': b['texts_so_far']},
+                          'expected': {'what a fresh parser object reports for the last text': b['fresh_object']}, 'observed': b['reused_object'],
+                          'why': 'the failure a reused parser object reports (class, offset, line, column, source line, message) is not the failure of the text it was given',
+                          'spec': 'C08: a reported failure carries a position within the text whose line, column and source line agree with it'},
+                         key='reusederr' + str(b['texts_so_far'][-1])[:30])
+    ck.notes['reused_parser_error_calls'] = n
+
+
 def run(tier):
     ck = Check('C08', tier)
     rnd = random.Random(8000 + ck.seed)
+    reused_parser_errors(ck, tier)
     # ---- (1) meta expressions: spec -> code
     alpha = ['1', '0', '+', '-', '.', 'e', '_', 'x', ' ']
     texts = all_texts(alpha, 3 if tier == 'quick' else 4) + [list(t) for t in ['true', 'false', 'True x', 'False', 'tru', 'truex', '1.5e+1', '-0.5', '1_000',
